@@ -1,4 +1,5 @@
 import TrucModel.Proofs.Memory
+import TrucModel.Proofs.Refine
 /-
   C06 — Everything stored in a record is destroyed exactly once.
   Goal (full statement): ledger balance over every API operation sequence.  Proved so far
@@ -70,6 +71,51 @@ theorem C06_no_second_read_partial (dr : String → Bool) (b b' : Buf) (d : D) (
 theorem C06_read_frame_partial (b : Buf) (d d' : D)
     (h : ¬(d.offset = d'.offset ∧ d.size = d'.size ∧ d.ty = d'.ty)) : (b.markMoved d).find d' = b.find d' :=
   markMoved_frame b d d' h
+
+/-- **program level, simplest life cycle.** A record built by the generated constructor and then
+    dropped destroys exactly the droppable values that were moved into it — each once (the list has
+    one entry per field) — and the constructor itself destroys nothing. -/
+theorem C06_new_then_drop (dr : String → Bool) (cap : Nat) (s : Spec) (hwf : WFData cap s.data) (vals : List Val)
+    (hl : vals.length = s.data.length) (hty : ∀ p ∈ s.data.zip vals, p.2.ty = p.1.ty) :
+    ∃ b st st', call dr cap (ctorNew s) { args := [("from", fieldsOf s.data vals)] } = .ok st ∧ st.result = .record b ∧ st.drops = [] ∧
+      call dr cap (dropFn s) { self_ := some b } = .ok st' ∧ st'.drops = vals.filter (fun v => dr v.ty) := by
+  obtain ⟨b, st, hcall, hres, hcap, hdrops, _, hfound, _⟩ := ctorNew_ok dr cap s hwf vals hl hty
+  have hf : ∀ d ∈ s.data, ∃ e, b.find d = some e := fun d hd => by
+    obtain ⟨i, hi, rfl⟩ := List.mem_iff_getElem.1 hd
+    exact ⟨_, hfound (s.data[i], vals[i]'(by omega)) (by rw [List.mem_iff_getElem]; exact ⟨i, by simp [hl]; exact hi, by simp⟩)⟩
+  obtain ⟨st', hd, hdr, _⟩ := drop_ok dr cap s b hcap hwf hf
+  refine ⟨b, st, st', hcall, hres, hdrops, hd, ?_⟩
+  rw [hdr]
+  congr 1
+  apply List.ext_getElem
+  · simp [hl]
+  · intro i h1 h2
+    simp only [List.getElem_map]
+    have hi : i < s.data.length := by simpa using h1
+    rw [hfound (s.data[i], vals[i]'(by omega)) (by rw [List.mem_iff_getElem]; exact ⟨i, by simp [hl]; exact hi, by simp⟩)]
+    rfl
+
+/-- … and when it is unpacked instead, nothing at all is destroyed: every value is handed back -/
+theorem C06_new_then_unpack (dr : String → Bool) (cap : Nat) (s : Spec) (hwf : WFData cap s.data) (hrec : "record" ∉ s.data.map (·.name))
+    (vals : List Val) (hl : vals.length = s.data.length) (hty : ∀ p ∈ s.data.zip vals, p.2.ty = p.1.ty) :
+    ∃ b st st', call dr cap (ctorNew s) { args := [("from", fieldsOf s.data vals)] } = .ok st ∧ st.result = .record b ∧ st.drops = [] ∧
+      call dr cap (unpackFn s) { self_ := some b, selfGlue := some s.data } = .ok st' ∧ st'.drops = [] ∧
+      st'.result = .struct ((s.data.map (·.name)).zip vals) none := by
+  obtain ⟨b, st, hcall, hres, hcap, hdrops, _, hfound, _⟩ := ctorNew_ok dr cap s hwf vals hl hty
+  have hf : ∀ d ∈ s.data, ∃ e, b.find d = some e := fun d hd => by
+    obtain ⟨i, hi, rfl⟩ := List.mem_iff_getElem.1 hd
+    exact ⟨_, hfound (s.data[i], vals[i]'(by omega)) (by rw [List.mem_iff_getElem]; exact ⟨i, by simp [hl]; exact hi, by simp⟩)⟩
+  obtain ⟨st', hu, hr, hd, _⟩ := unpack_ok dr cap s b hcap hwf hrec hf
+  refine ⟨b, st, st', hcall, hres, hdrops, hu, hd, ?_⟩
+  rw [hr]
+  congr 2
+  apply List.ext_getElem
+  · simp [hl]
+  · intro i h1 h2
+    simp only [List.getElem_map]
+    have hi : i < s.data.length := by simpa using h1
+    rw [hfound (s.data[i], vals[i]'(by omega)) (by rw [List.mem_iff_getElem]; exact ⟨i, by simp [hl]; exact hi, by simp⟩)]
+    rfl
 
 /-- non-vacuity -/
 example :
